@@ -107,6 +107,19 @@ func specsGenerated(rng *core.Rng) []caseSpec {
 	return out
 }
 
+// specsFlavours: shapes on which the context flavours are run (all loop shapes and a few rings / entries).
+func specsFlavours() []caseSpec {
+	var out []caseSpec
+	for _, ls := range loopShapes {
+		out = append(out, caseSpec{Shape: ls.Name, Entry: "export", Ticked: true})
+	}
+	for _, s := range []string{"return_call-self", "return_call-mutual-2", "return_call_indirect-self", "self-recursion", "hostloop", "host-recursion", "xmod-loop-2"} {
+		out = append(out, caseSpec{Shape: s, Entry: "export", Ticked: true})
+	}
+	out = append(out, caseSpec{Shape: "loop-br", Entry: "start", Ticked: true}, caseSpec{Shape: "loop-br", Entry: "hostcb", Ticked: true})
+	return out
+}
+
 func specsTickless() []caseSpec {
 	var out []caseSpec
 	for _, s := range []string{"loop-br_if", "loop-br_table", "nested-inner-backedge", "nested-outer-backedge",
@@ -157,6 +170,17 @@ func run(c *core.Ctx) int {
 			}
 		}
 	}
+	// context flavours of cancel / deadline (user-supplied cause, derived contexts): a representative subset of shapes
+	flavours := append(append([]string(nil), cancelFlavours...), deadlineFlavours...)
+	for _, cs := range specsFlavours() {
+		for _, eng := range engines {
+			for _, cause := range flavours {
+				for _, k := range []int{-1, 0, 1, 7, 100} {
+					add(cs, eng, cause, k)
+				}
+			}
+		}
+	}
 	if thorough {
 		for _, cs := range specsGenerated(rng) {
 			for _, eng := range engines {
@@ -179,6 +203,12 @@ func run(c *core.Ctx) int {
 				}
 				wcases = append(wcases, tcase{caseSpec: cs, Engine: eng, Cause: wc[0].(string), Moment: wc[1].(int), Code: codePool[1+rng.Intn(len(codePool)-1)]})
 			}
+		}
+	}
+
+	for _, eng := range engines {
+		for _, cause := range flavours {
+			wcases = append(wcases, tcase{caseSpec: caseSpec{Shape: "loop-br_if", Entry: "export"}, Engine: eng, Cause: cause, Moment: 0, Code: 1})
 		}
 	}
 
@@ -207,7 +237,7 @@ func run(c *core.Ctx) int {
 	// classes the run must have reached
 	broken := false
 	for _, eng := range engines {
-		for _, cause := range causes {
+		for _, cause := range append(append([]string(nil), causes...), flavours...) {
 			if c.Counter("closed_observed_"+eng+"_"+cause) == 0 {
 				fmt.Printf("BROKEN: no case observed the module closed for engine=%s cause=%s\n", eng, cause)
 				broken = true
@@ -219,7 +249,7 @@ func run(c *core.Ctx) int {
 		}
 	}
 	code := c.Finish(d.evals, int64(c.DistinctN("decided_points")),
-		"enumeration of cycle shapes (loop back edges, nested loops, block out-and-back, call/call_indirect recursion, return_call/return_call_indirect cycles, cycles through host functions, cross-module cycles, start functions; thorough adds all rings of length<=3 over the edge kinds) x engine x cause x moment; evaluation = one case whose call returned (or was stopped by the harness) and was judged; distinct = distinct (shape@entry, engine, cause, moment) points in which the monitor saw the cause take effect (module observed closed by tick, call stopped at entry, or watchdog control returned)")
+		"enumeration of cycle shapes (loop back edges, nested loops, block out-and-back, call/call_indirect recursion, return_call/return_call_indirect cycles, cycles through host functions, cross-module cycles, start functions; thorough adds all rings of length<=3 over the edge kinds) x engine x cause (cancel, deadline, close from another goroutine, close inline; plus context flavours with user-supplied causes / derived contexts on a subset of shapes) x moment; evaluation = one case whose call returned (or was stopped by the harness) and was judged; distinct = distinct (shape@entry, engine, cause, moment) points in which the monitor saw the cause take effect (module observed closed by tick, call stopped at entry, or watchdog control returned)")
 	if code == 0 && broken {
 		return 2
 	}
@@ -436,7 +466,7 @@ func (d *decider) tickedResult(tc tcase, r core.CaseResult) {
 		}
 		return
 	}
-	if cause == "cancel" || cause == "deadline" {
+	if causeKind(cause) != "close" {
 		d.judged("ctx-close:"+eng, pt)
 	}
 	d.evals++
